@@ -361,7 +361,7 @@ func (o histOpts) ctxKinds() []int {
 	if o.CtxKinds != nil {
 		return o.CtxKinds
 	}
-	return []int{0, 1, 2, 3}
+	return []int{0, 1, 2, 3, 4}
 }
 
 func (x *run) describe() string {
